@@ -67,6 +67,9 @@ Sem/ClassModel.vos Sem/ClassModel.vok Sem/ClassModel.required_vos: Sem/ClassMode
 Sem/InvModel.vo Sem/InvModel.glob Sem/InvModel.v.beautified Sem/InvModel.required_vo: Sem/InvModel.v Core/Base.vo Sem/Show.vo
 Sem/InvModel.vio: Sem/InvModel.v Core/Base.vio Sem/Show.vio
 Sem/InvModel.vos Sem/InvModel.vok Sem/InvModel.required_vos: Sem/InvModel.v Core/Base.vos Sem/Show.vos
+Sem/ImportModel.vo Sem/ImportModel.glob Sem/ImportModel.v.beautified Sem/ImportModel.required_vo: Sem/ImportModel.v Core/Base.vo Sem/Show.vo Gen/HasPatcher.vo
+Sem/ImportModel.vio: Sem/ImportModel.v Core/Base.vio Sem/Show.vio Gen/HasPatcher.vio
+Sem/ImportModel.vos Sem/ImportModel.vok Sem/ImportModel.required_vos: Sem/ImportModel.v Core/Base.vos Sem/Show.vos Gen/HasPatcher.vos
 Sem/ScnSwitch.vo Sem/ScnSwitch.glob Sem/ScnSwitch.v.beautified Sem/ScnSwitch.required_vo: Sem/ScnSwitch.v Core/Base.vo Core/Prog.vo Sem/Interp.vo Sem/Show.vo Gen/State.vo
 Sem/ScnSwitch.vio: Sem/ScnSwitch.v Core/Base.vio Core/Prog.vio Sem/Interp.vio Sem/Show.vio Gen/State.vio
 Sem/ScnSwitch.vos Sem/ScnSwitch.vok Sem/ScnSwitch.required_vos: Sem/ScnSwitch.v Core/Base.vos Core/Prog.vos Sem/Interp.vos Sem/Show.vos Gen/State.vos
@@ -169,3 +172,9 @@ Thm/C05/Invariants.vos Thm/C05/Invariants.vok Thm/C05/Invariants.required_vos: T
 Props/C05.vo Props/C05.glob Props/C05.v.beautified Props/C05.required_vo: Props/C05.v Core/Base.vo Sem/Show.vo Sem/InvModel.vo Gen/ObjPin.vo Thm/C05/Invariants.vo
 Props/C05.vio: Props/C05.v Core/Base.vio Sem/Show.vio Sem/InvModel.vio Gen/ObjPin.vio Thm/C05/Invariants.vio
 Props/C05.vos Props/C05.vok Props/C05.required_vos: Props/C05.v Core/Base.vos Sem/Show.vos Sem/InvModel.vos Gen/ObjPin.vos Thm/C05/Invariants.vos
+Thm/C20/Imports.vo Thm/C20/Imports.glob Thm/C20/Imports.v.beautified Thm/C20/Imports.required_vo: Thm/C20/Imports.v Core/Base.vo Sem/Show.vo Gen/HasPatcher.vo Sem/ImportModel.vo
+Thm/C20/Imports.vio: Thm/C20/Imports.v Core/Base.vio Sem/Show.vio Gen/HasPatcher.vio Sem/ImportModel.vio
+Thm/C20/Imports.vos Thm/C20/Imports.vok Thm/C20/Imports.required_vos: Thm/C20/Imports.v Core/Base.vos Sem/Show.vos Gen/HasPatcher.vos Sem/ImportModel.vos
+Props/C20.vo Props/C20.glob Props/C20.v.beautified Props/C20.required_vo: Props/C20.v Core/Base.vo Sem/Show.vo Gen/HasPatcher.vo Sem/ImportModel.vo Gen/ObjPin.vo Thm/C20/Imports.vo
+Props/C20.vio: Props/C20.v Core/Base.vio Sem/Show.vio Gen/HasPatcher.vio Sem/ImportModel.vio Gen/ObjPin.vio Thm/C20/Imports.vio
+Props/C20.vos Props/C20.vok Props/C20.required_vos: Props/C20.v Core/Base.vos Sem/Show.vos Gen/HasPatcher.vos Sem/ImportModel.vos Gen/ObjPin.vos Thm/C20/Imports.vos
